@@ -84,8 +84,7 @@ ASSUME RefDecode(<<198, 16, 42, 170, 42>>) = [out |-> <<<<42, "none">>, <<42, "n
 Muted == {IF k \in DOMAIN IOEnv THEN IOEnv[k] ELSE "" :
              k \in {"VF_MUTE1", "VF_MUTE2", "VF_MUTE3", "VF_MUTE4", "VF_MUTE5", "VF_MUTE6", "VF_MUTE7", "VF_MUTE8"}}
 
-(* exp   outputs the reference has produced and the implementation has not delivered yet; rs = a RESETTED frame  *)
-(*       arrived while the entry was waiting (only used to name the signature of a loss)                          *)
+(* exp   outputs the reference has produced and the implementation has not delivered yet                           *)
 (* nexp  likewise for notifications; opt = the entry may be skipped                                               *)
 (* unk / armed: after a frame with an unknown command the documents define nothing about the frame's extent, so   *)
 (*       an implementation may resynchronise with the next arrival: "nothing more" reports are not judged while   *)
@@ -100,32 +99,38 @@ MonInit == [pend |-> -1, exp |-> <<>>, nexp |-> <<>>, unk |-> 0, armed |-> FALSE
 
 Fail(m, sig) == IF m.bad = "" /\ sig \notin Muted THEN [m EXCEPT !.bad = sig] ELSE m
 
-LostSig(h) == IF h.rs THEN "C14:reset-frame-drops-earlier-symbol" ELSE "C14:symbol-lost"
+(* bound of the environment: never more than VF_CAP bytes are pending in the transport, so more than VF_CAP undelivered *)
+(* outputs mean that one was lost (keeps the monitor finite when a loss signature is muted)                            *)
+Cap == IF "VF_CAP" \in DOMAIN IOEnv THEN atoi(IOEnv.VF_CAP) ELSE 64
+(* a loss is named after a RESETTED frame if one arrived since the last quiescent point *)
+LostSig(m) == IF m.rj THEN "C14:reset-frame-drops-earlier-symbol" ELSE "C14:symbol-lost"
 ReqNtf(q) == {k \in 1..Len(q) : ~q[k].opt}
 MinOf(S) == CHOOSE x \in S : \A y \in S : x <= y
 ClsName(c) == c[1]
 
 (* ---- a byte arrives ---- *)
+PushN(m, es) == LET m1 == [m EXCEPT !.nexp = @ \o es] IN
+                IF Len(m1.nexp) > 2 * Cap
+                THEN Fail([m1 EXCEPT !.nexp = Tail(@)], "C14:notification-missing:" \o ClsName(Head(m1.nexp).c)) ELSE m1
 MonArr(m0, b) ==
   LET it == Item(m0.pend, b)
       m == [m0 EXCEPT !.quiet = FALSE, !.armed = FALSE] IN
   CASE it.k = "pend" -> [m EXCEPT !.pend = b]
-    [] it.k = "sym"  -> [m EXCEPT !.pend = -1, !.exp = Append(@, [s |-> it.s, r |-> it.r, rs |-> FALSE])]
-    [] it.k = "ntf"  -> [m EXCEPT !.pend = -1, !.nexp = Append(@, [c |-> it.c, opt |-> FALSE])]
-    [] it.k = "err"  -> [m EXCEPT !.pend = -1, !.nexp = Append(@, [c |-> it.c, opt |-> FALSE]), !.cj = TRUE]
+    [] it.k = "sym"  -> LET m1 == [m EXCEPT !.pend = -1, !.exp = Append(@, [s |-> it.s, r |-> it.r])] IN
+                        IF Len(m1.exp) > Cap THEN Fail([m1 EXCEPT !.exp = Tail(@)], LostSig(m1)) ELSE m1
+    [] it.k = "ntf"  -> PushN([m EXCEPT !.pend = -1], <<[c |-> it.c, opt |-> FALSE]>>)
+    [] it.k = "err"  -> PushN([m EXCEPT !.pend = -1, !.cj = TRUE], <<[c |-> it.c, opt |-> FALSE]>>)
     [] it.k = "unknown" ->
          \* one notification; a second one for the frame's second byte is tolerated (extent of an unknown frame is open)
-         [m EXCEPT !.pend = -1, !.unk = @ + 1,
-                   !.nexp = @ \o <<[c |-> it.c, opt |-> FALSE], [c |-> <<"stray2", 0>>, opt |-> TRUE]>>]
+         PushN([m EXCEPT !.pend = -1, !.unk = IF @ < Cap THEN @ + 1 ELSE @],
+               <<[c |-> it.c, opt |-> FALSE], [c |-> <<"stray2", 0>>, opt |-> TRUE]>>)
     [] it.k = "reset" ->
-         [m EXCEPT !.pend = -1, !.cj = TRUE, !.rj = TRUE, !.im = "unspec",
-                   !.exp = [k \in 1..Len(@) |-> [@[k] EXCEPT !.rs = TRUE]]]
+         [m EXCEPT !.pend = -1, !.cj = TRUE, !.rj = TRUE, !.im = "unspec"]
     [] it.k = "info" ->
          CASE m.im = "await" -> IF it.d >= 1 /\ it.d <= 16 THEN [m EXCEPT !.pend = -1, !.im = "run", !.ileft = it.d]
                                 ELSE [m EXCEPT !.pend = -1, !.im = "unspec"]
            [] m.im = "run" -> IF m.ileft > 1 THEN [m EXCEPT !.pend = -1, !.ileft = @ - 1]
-                              ELSE [m EXCEPT !.pend = -1, !.im = "idle", !.ileft = 0,
-                                             !.nexp = Append(@, [c |-> <<"info", 0>>, opt |-> FALSE])]
+                              ELSE PushN([m EXCEPT !.pend = -1, !.im = "idle", !.ileft = 0], <<[c |-> <<"info", 0>>, opt |-> FALSE]>>)
            [] OTHER -> [m EXCEPT !.pend = -1]
 
 (* ---- a (symbol, result) is delivered ---- *)
@@ -133,15 +138,16 @@ Deliver(m, s, r) ==
   IF m.exp = <<>> THEN Fail(m, "C14:symbol-without-frame")
   ELSE LET h == Head(m.exp) IN
        IF h.s = s /\ h.r = r THEN [m EXCEPT !.exp = Tail(@)]
-       ELSE IF h.s = s THEN Fail([m EXCEPT !.exp = Tail(@)], "C14:arbitration-result-altered")
+       ELSE IF h.s = s THEN Fail([m EXCEPT !.exp = Tail(@)], IF m.rj THEN "C14:reset-frame-alters-earlier-arbitration-result"
+                                                                  ELSE "C14:arbitration-result-altered")
        ELSE LET ks == {k \in 2..Len(m.exp) : m.exp[k].s = s /\ m.exp[k].r = r} IN
             IF ks = {} THEN Fail([m EXCEPT !.exp = Tail(@)], "C14:symbol-altered")
-            ELSE Fail([m EXCEPT !.exp = SubSeq(@, MinOf(ks) + 1, Len(@))], LostSig(h))
+            ELSE Fail([m EXCEPT !.exp = SubSeq(@, MinOf(ks) + 1, Len(@))], LostSig(m))
 
 (* ---- "nothing more" after a real wait: everything that arrived must have been delivered ---- *)
 Quiesce(m) ==
   IF m.unk > 0 \/ m.armed THEN m
-  ELSE LET m1 == IF m.exp # <<>> THEN Fail([m EXCEPT !.exp = <<>>], LostSig(Head(m.exp))) ELSE m
+  ELSE LET m1 == IF m.exp # <<>> THEN Fail([m EXCEPT !.exp = <<>>], LostSig(m)) ELSE m
            rq == ReqNtf(m1.nexp)
            m2 == IF rq # {} THEN Fail(m1, "C14:notification-missing:" \o ClsName(m1.nexp[MinOf(rq)].c)) ELSE m1 IN
        [m2 EXCEPT !.nexp = <<>>, !.quiet = TRUE, !.cj = FALSE, !.rj = FALSE]
@@ -156,8 +162,10 @@ Resync(m) ==
 MonRv(m, res, sym, as, T) ==
   LET r  == IF as = 6 THEN "won" ELSE IF as = 4 THEN "lost" ELSE "none"
       m0 == IF as = 2 /\ ~(m.cj \/ res = 3) THEN Fail(m, "C14:arbitration-cancelled-without-cause") ELSE m
-      wantDat == IF res \in {0, 1} THEN <<<<sym, IF r = "won" THEN 0 ELSE 1>>>> ELSE <<>>
-      m1 == IF m0.dat # wantDat THEN Fail(m0, "C14:data-notification-mismatch") ELSE m0
+      \* the data notification of a delivery is judged only when the delivery itself is the expected one
+      clean == m.exp # <<>> /\ Head(m.exp).s = sym /\ Head(m.exp).r = r
+      datOk == IF res \in {0, 1} THEN (~clean \/ m0.dat = <<<<sym, IF r = "won" THEN 0 ELSE 1>>>>) ELSE m0.dat = <<>>
+      m1 == IF ~datOk THEN Fail(m0, "C14:data-notification-mismatch") ELSE m0
       m2 == [m1 EXCEPT !.call = <<"none", 0>>, !.dat = <<>>] IN
   CASE res \in {0, 1} -> Deliver(m2, sym, r)
     [] res = 2 -> LET m3 == IF r # "none" THEN Fail(m2, "C14:arbitration-result-without-symbol") ELSE m2 IN
